@@ -269,8 +269,20 @@ def spec_c08(obs, lines, final_quiescent=True):
     """whenever closed: transport and socket closed (or never made), no keepalive/pong/handshake timer armed, writes and
     subscriber deliveries never grow afterwards; at the end (all tasks resumed) no request timer either"""
     closed_since = None
+    prev = parse(obs[0]) if obs and "st=" in obs[0] else None
     for i, o in enumerate(obs[1:], 1):
         d = parse(o)
+        # the step that closes: frames that FOLLOW the closing frame in the same chunk are not delivered (bound: the state
+        # messages before the last frame of the chunk that can close the connection)
+        l = lines[i] if i < len(lines) else ""
+        if prev is not None and l.startswith("cn.ev data") and d["st"] == "closed" and prev.get("st") != "closed":
+            toks = l.split(" ")[2:]
+            closers = [k for k, t in enumerate(toks) if t in ("discreq", "garbage", "bad")]
+            if closers:
+                bound = sum(1 for t in toks[: closers[-1]] if t == "other")
+                if int(d["deliv"]) - int(prev["deliv"]) > bound:
+                    return "delivery-after-closing-frame", i
+        prev = d
         if d["disc"] == "done" and d["st"] != "closed":
             # disconnect() is a close cause at any point of the life: once it has returned the connection is closed
             return "not-closed-after-disconnect", i
